@@ -61,6 +61,7 @@ def c06(ctx, rep):
     cmptables.rule_int_tables(ctx, rep)
     cmptables.rule_set_algebra(ctx, rep, which=("int_fields",))
     cmptables.rule_int_store(ctx, rep)
+    generic_core(ctx, rep)
 
 
 @prop("C09", "Decides the structural clauses of C09: (T-CMP(fee)) the complete fee comparison table - 6 operators x both operand "
@@ -71,6 +72,7 @@ def c09(ctx, rep):
     cmptables.rule_fee_tables(ctx, rep)
     cmptables.rule_fee_lattice(ctx, rep)
     cmptables.rule_fee_store(ctx, rep)
+    generic_core(ctx, rep)
 
 
 @prop("C08", "Decides the structural clauses of C08: (T-LATTICE(addr)) union/intersection with ANY/NO markers denote set "
@@ -82,6 +84,7 @@ def c08(ctx, rep):
     cmptables.rule_addr_lattice(ctx, rep)
     cmptables.rule_addr_tables(ctx, rep)
     cmptables.rule_addr_store(ctx, rep)
+    generic_core(ctx, rep)
 
 
 @prop("C07", "Decides the structural clause of C07: (T-KIND) for every cell of the transaction-kind comparison table - field in "
@@ -92,9 +95,19 @@ def c07(ctx, rep):
     cmptables.rule_kind_tables(ctx, rep)
     cmptables.rule_set_algebra(ctx, rep, which=("txn_types",))
     cmptables._store_family_rule(ctx, rep, "T-STORE(kind)", "txn_types")
+    generic_core(ctx, rep)
 
 
 from .rules import generic_tables  # noqa: E402
+
+
+def generic_core(ctx, rep):
+    """the generic solver's tables: every per-field property (C06-C10) and C01 rest on them"""
+    generic_tables.rule_comb(ctx, rep)
+    generic_tables.rule_block(ctx, rep)
+    generic_tables.rule_edge(ctx, rep)
+    generic_tables.rule_eqn(ctx, rep)
+    generic_tables.rule_worklist(ctx, rep)
 
 
 @prop("C03", "Decides the structural clauses of C03 (exactness of the transfer tables on direct checks): (T-COMB) Boolean "
@@ -134,6 +147,7 @@ def c10(ctx, rep):
     for name, mod in (("T-STORE(fee)", "fee_field"), ("T-STORE(addr)", "addr_fields"), ("T-STORE(kind)", "txn_types")):
         rep.rule(name, "key family <-> context accessor pairing in _store_results")
         cmptables._store_family_rule(ctx, rep, name, mod)
+    generic_core(ctx, rep)
 
 
 from .rules import detectors  # noqa: E402
@@ -150,9 +164,10 @@ def c01(ctx, rep):
     detectors.rule_validated_in_block(ctx, rep)
     detectors.rule_search_paths_exits(ctx, rep)
     detectors.rule_search_paths_rows(ctx, rep)
-    generic_tables.rule_eqn(ctx, rep)
-    generic_tables.rule_edge(ctx, rep)
-    generic_tables.rule_block(ctx, rep)
+    generic_core(ctx, rep)
+    optable.rule_stack_effect(ctx, rep)
+    cmptables.rule_addr_tables(ctx, rep)
+    cmptables.rule_fee_tables(ctx, rep)
 
 
 @prop("C13", "Decides the structural clauses of C13: (T-GROUP) the group verdict function on abstract two-member groups with marker "
